@@ -84,7 +84,7 @@ func runC14(c *Ctx) {
 			}
 			fn := fn
 			retIdx := errResultIndex(fn.Signature)
-			c.Walk(rule, fn, func(p *walk.Path) {
+			c.WalkShallow(rule, fn, func(p *walk.Path) {
 				if _, ok := p.Exit.(*ssa.Return); !ok {
 					return
 				}
